@@ -13,7 +13,8 @@ KINDS = ["map", "flat_map", "poll", "retry", "throttle", "timeout", "cancel_on_s
 
 
 class CE(Exception):
-    pass
+    def __bool__(self):        # some exception objects are falsy (empty error aggregates): still exceptions
+        return self.args[0] % 3 != 0
 
 
 def gen(rng, maxdepth=6):
@@ -133,7 +134,10 @@ def execute(p, chooser):
             t.join()
         for s, f in sorted(futs.items()):
             try:
-                obs["res"][s] = ("ok", f.result(10 ** 7))
+                # exception() first: the stdlib's own result() tests the stored exception for truthiness, so a falsy
+                # exception object would read as "result None" there
+                e = f.exception(10 ** 7)
+                obs["res"][s] = ("err", e) if e is not None else ("ok", f.result(0))
             except BaseException as e:
                 if isinstance(e, det.Abort):
                     raise
